@@ -154,7 +154,7 @@ PROPS.update({
     "C18": {
         "engine_name": "vpure",
         "workloads": [vpure("c18", 40000, 800000), vrun("c18", 3000, 50000)],
-        "rule": "pure part: RetryOptions::parse_from_tags on random placements of the four well-formed retry tag forms on scenario / rule / feature x random tag-filter ASTs x CLI values, compared with an oracle written from the statement; end-to-end part (real runner): the Retries on each scenario's first Started event and its attempts, with values coming from tags, CLI, builder or both (builder-vs-CLI precedence, --concurrency / --fail-fast merge are observed by the C06 / C08 monitors on the same runs); non-trivial = >=2 sources (tag levels, cli retry, cli after, filter) present; distinct by their combination",
+        "rule": "pure part: RetryOptions::parse_from_tags on random placements of the four well-formed retry tag forms on scenario / rule / feature x random tag-filter ASTs x CLI values, compared with an oracle written from the statement; end-to-end part (real runner): the Retries on each scenario's first Started event and its attempts, with values coming from tags, CLI, builder or both plus the merge clauses: in-flight peak never above `--concurrency`-over-builder and reaching min(limit, scenarios) when everything is available at the first dispatch, fail-fast active iff CLI or builder set it; non-trivial = >=2 sources (tag levels, cli retry, cli after, filter) present; distinct by their combination",
         "floor": {"quick": 500, "thorough": 3000},
         "assumptions": VPURE_ASSUME + ["tags that merely start with `retry` or carry malformed payloads are outside the statement and not generated"],
     },
